@@ -84,11 +84,12 @@ def ob_chunks(n: int, kind: int) -> bool:
         return seen == [y, y, y]
 
 
-IDS = ['a', 'node-1', 'é', '日本語', 'x' * 40, 'with space', 'q"uote', 'a/b', 17, 'z' * 200, '+', '=']
+IDS = ['a', 'node-1', 'é', '日本語', 'x' * 40, 'with space', 'q"uote', 'a/b', 17, 'z' * 200, '+', '=', '\udc80x', '\ud83d', '\U0001f600', '\x00\n\t', '\\', 1.5, -3, '', '<&>', '\u2028', "'"]
 
 
 def ob_real_roundtrip(a: int, b: int, c: int, depth: int) -> bool:
-    i, j, k = pick(a, len(IDS)), pick(b, len(IDS)), pick(c, len(IDS))
+    i, j = pick(a, len(IDS)), pick(b, len(IDS))
+    k = (i + 2 * j + 1) % len(IDS)          # the third id follows from the first two (every PAIR of ids is covered)
     d = pick(depth, 3)
     with NoTracing():
         if d == 0:
@@ -319,7 +320,7 @@ OBLIGATIONS.append(Ob('chunk_layer', ob_chunks, ['0 <= n <= %d' % NMAX, '0 <= ki
                       data='payload length n: every value 0..%d (crosses the 57-byte / 76-char chunk boundaries many times)' % NMAX,
                       selectors='3 byte patterns (zeros; 0xFB/0xFF-rich producing + and /; counter)',
                       outside='payloads longer than %d bytes' % NMAX, stubs='zlib.compress returns the chosen byte string, zlib.decompress records its argument (binascii is C: content concrete per path)'))
-OBLIGATIONS.append(Ob('real_roundtrip', ob_real_roundtrip, ['0 <= a < 12', '0 <= b < 12', '0 <= c < 12', '0 <= depth < 3'], timeout=tier(280, 900), path_timeout=60,
+OBLIGATIONS.append(Ob('real_roundtrip', ob_real_roundtrip, ['0 <= a < %d' % len(IDS), '0 <= b < %d' % len(IDS), 'c == 0', '0 <= depth < 3'], timeout=tier(280, 900), path_timeout=60,
                       data='-', selectors='states of depth 1..3 over ids %r' % ([str(i)[:12] for i in IDS],), outside='ids JSON cannot carry (bytes)'))
 OBLIGATIONS.append(Ob('big_state', ob_big_state, ['0 <= n <= 60'], timeout=tier(250, 900), data='number of sibling ids: 0, 20, 40, ... 1200 (state JSON up to ~17 kB)', selectors='real zlib'))
 PRE = ['0 <= c%d < 8' % i for i in range(1, 6)]
